@@ -16,6 +16,7 @@ import (
 	sdkstakingkeeper "github.com/cosmos/cosmos-sdk/x/staking/keeper"
 	transfertypes "github.com/cosmos/ibc-go/v7/modules/apps/transfer/types"
 	clienttypes "github.com/cosmos/ibc-go/v7/modules/core/02-client/types"
+	"github.com/cosmos/cosmos-sdk/x/authz"
 	"github.com/ethereum/go-ethereum/accounts/abi"
 	"github.com/ethereum/go-ethereum/common"
 	"github.com/ethereum/go-ethereum/core/vm"
@@ -158,5 +159,77 @@ func VerifC10_Ics20NestedConversion() {
 	zz.Assert(bal == initial-burnt-done, "the contract's token balance is debited by exactly what it burnt and what was converted")
 	zz.Assert(total == initial-burnt-done, "the total supply is reduced by exactly what was burnt and what was converted")
 	zz.Assert(total <= escrow, "the ERC20 total supply never exceeds the coins escrowed in the module account")
+	zz.Reach("end")
+}
+
+
+var icsGrantKey = []byte("remaining limit of the grant contract <- signer")
+
+// VerifC05_Ics20RunAtomic: the real ICS-20 Precompile.Run for a transfer of the signer's coins by a contract under a limited
+// grant. The coins the transfer module escrows and the remaining limit of the grant are kept in a KV store of the context the
+// stubs are handed, so they follow the cached context of Run. The call fails when the module refuses, when the amount
+// exceeds the limit, or when the SDK gas meter runs out at the grant update - the only charged write, after the coins have
+// moved. A failed call leaves escrow and grant exactly as they were; a successful one escrows the amount and reduces the
+// grant by it.
+func VerifC05_Ics20RunAtomic() {
+	env := zz.NewEnv([]string{"evmstorage"}, nil)
+	ctx := env.Ctx.WithBlockTime(time.Unix(1700000000, 0)).WithGasMeter(sdk.NewInfiniteGasMeter())
+	ics.grants, ics.msgs, ics.alias = map[string]*icsGrant{}, nil, nil
+	p := Precompile{Precompile: cmn.Precompile{ApprovalExpiration: time.Hour}, stakingKeeper: stakingkeeper.Keeper{Keeper: &sdkstakingkeeper.Keeper{}}}
+	bank := &icsBank{bal: map[common.Address]sdkmath.Int{}, supply: sdk.ZeroInt()}
+	for _, a := range []common.Address{icsOrigin, icsContract, icsEscrow} {
+		bank.bal[a] = sdk.ZeroInt()
+	}
+	ics.bank = bank
+	keeper := icsTokenKeeper{icsBank: bank, key: env.Key("evmstorage")}
+	limit := 1 + zz.Choose("limit", 3)
+	amount := 1 + zz.Choose("amount", 4)
+	store := ctx.KVStore(keeper.key)
+	store.Set(icsEscrowKey, icsWord(0).Bytes())
+	store.Set(icsGrantKey, icsWord(limit).Bytes())
+	ics.grants[icsKey(icsContract.Bytes(), icsOrigin.Bytes())] = &icsGrant{auth: &transfertypes.TransferAuthorization{Allocations: []transfertypes.Allocation{
+		{SourcePort: "transfer", SourceChannel: "channel-0", SpendLimit: sdk.NewCoins(sdk.NewCoin("acoin", sdkmath.NewInt(int64(limit))))}}}}
+	ics.fail = zz.AnyBool("moduleRefuses")
+	oog := zz.AnyBool("gasRunsOutAtTheGrantUpdate")
+	ics.nested = func(c sdk.Context, m *transfertypes.MsgTransfer) {
+		bank.bal[icsOrigin] = m.Token.Amount // the signer holds the coins
+		st := c.KVStore(keeper.key)
+		st.Set(icsEscrowKey, icsWord(icsNum(common.BytesToHash(st.Get(icsEscrowKey)))+int(m.Token.Amount.Int64())).Bytes())
+	}
+	ics.grantWrite = func(c sdk.Context, a authz.Authorization) {
+		if oog {
+			panic(sdk.ErrorOutOfGas{Descriptor: "harness: gas ran out at the grant update"})
+		}
+		left := 0
+		if ta, ok := a.(*transfertypes.TransferAuthorization); ok && len(ta.Allocations) == 1 {
+			left = int(ta.Allocations[0].SpendLimit.AmountOf("acoin").Int64())
+		}
+		c.KVStore(keeper.key).Set(icsGrantKey, icsWord(left).Bytes())
+	}
+	defer func() { ics.nested, ics.grantWrite = nil, nil }()
+
+	db := statedb.New(ctx, keeper, statedb.NewEmptyTxConfig(common.Hash{}))
+	db.GetBalance(icsOrigin)
+	db.GetCodeHash(icsContract)
+	icsRun.ctx, icsRun.db, icsRun.method = ctx, db, icsMethod
+	icsRun.args = []interface{}{"transfer", "channel-0", "acoin", sdkmath.NewInt(int64(amount)).BigInt(), icsOrigin, icsReceiver, clienttypes.NewHeight(1, 100), uint64(0), "memo"}
+	evm := &vm.EVM{TxContext: vm.TxContext{Origin: icsOrigin}, StateDB: db}
+	snap := db.Snapshot()
+	_, err := p.Run(evm, &vm.Contract{CallerAddress: icsContract, Gas: 1 << 40}, false)
+	if err != nil {
+		db.RevertToSnapshot(snap)
+	}
+	escrow := icsNum(common.BytesToHash(ctx.KVStore(keeper.key).Get(icsEscrowKey)))
+	left := icsNum(common.BytesToHash(ctx.KVStore(keeper.key).Get(icsGrantKey)))
+	if err != nil {
+		zz.Assert(escrow == 0, "a failed transfer call leaves no coins escrowed (also when the gas runs out after the coins moved)")
+		zz.Assert(left == limit, "a failed transfer call leaves the grant as it was")
+		zz.Reach("failed")
+	} else {
+		zz.Assert(!ics.fail && !oog && amount <= limit, "a call the module refuses, that exceeds the grant or that runs out of gas fails")
+		zz.Assert(escrow == amount, "a successful call escrows exactly the amount")
+		zz.Assert(left == limit-amount, "a successful call reduces the grant by exactly the amount")
+		zz.Reach("succeeded")
+	}
 	zz.Reach("end")
 }
